@@ -51,6 +51,18 @@ func NewFSM(opts FSMOpts) raft.FSM {
 	})
 }
 
+// safeHandle runs a command handler and converts a panic inside it into an error. A panic while
+// applying a committed entry would otherwise take down every node that applies it, again on every restart.
+func safeHandle(handler internal.HandlerFunc, params internal.HandlerFuncParams) (res []byte, err error) {
+	defer func() {
+		if r := recover(); r != nil {
+			log.Printf("panic in %s handler: %v\n", params.Command[0], r)
+			res, err = nil, fmt.Errorf("internal error while executing %s", strings.ToLower(params.Command[0]))
+		}
+	}()
+	return handler(params)
+}
+
 // Apply Implements raft.FSM interface
 func (fsm *FSM) Apply(log *raft.Log) interface{} {
 	switch log.Type {
@@ -114,7 +126,7 @@ func (fsm *FSM) Apply(log *raft.Log) interface{} {
 				handler = subCommand.HandlerFunc
 			}
 
-			if res, err := handler(fsm.options.GetHandlerFuncParams(ctx, request.CMD, nil)); err != nil {
+			if res, err := safeHandle(handler, fsm.options.GetHandlerFuncParams(ctx, request.CMD, nil)); err != nil {
 				return internal.ApplyResponse{
 					Error:    err,
 					Response: nil,
